@@ -83,6 +83,17 @@ def gen_cases(rng, tier, info):
     return cases
 
 
+CATALOG = ["(95 84 97 98 108 101 115)", "(95 67 111 108 117 109 110 115)", "(95 86 97 108 105 100 97 116 105 111 110)"]
+
+
+def classify_known(v):
+    """INSERT / UPDATE / DELETE aimed directly at a catalog table (known finding catalog_dml)"""
+    for cmd in v.get("cmds", []):
+        if cmd.startswith(("(insert ", "(update ", "(delete ")) and any(cmd.split(" ", 1)[1].startswith(n) for n in CATALOG):
+            return "catalog_dml"
+    return None
+
+
 def nontrivial(case):
     return True
 
